@@ -34,7 +34,10 @@ def encode_part(rep, cands, table, timeout, props=('C13',)):
                 pr.out['errors'].append(f'encode {name}/{nops}: {e}'); continue
             exp = asmcheck.expected_encode(kind, opc, ops)
             ok_any = Or(*[c for c, f in exp]) if exp else BoolVal(False)
-            def md(m): return dict(mnemonic=name, kind=kind, operands=[[mval(m, o[0]), mval(m, o[1]), mval(m, o[2])] for o in ops])
+            def md(m):
+                # prefer operand values the text syntax can spell (the magnitude of a decimal literal is at most i64::MAX)
+                m = pr.refine([[And(o[1] >= -(1 << 40), o[1] <= (1 << 40), o[2] >= -(1 << 40), o[2] <= (1 << 40)) for o in ops], [And(o[1] > -(1 << 63), o[2] > -(1 << 63)) for o in ops]], m)
+                return dict(mnemonic=name, kind=kind, operands=[[mval(m, o[0]), mval(m, o[1]), mval(m, o[2])] for o in ops])
             for p in paths:
                 pc_ = list(p.st.pc)
                 if p.kind == 'panic':
@@ -134,8 +137,45 @@ def literal_part(rep, cands, timeout):
     rep.merge_counts(pr.out)
 
 
+def native_texts(rep, cands):
+    """C14, bounded native complement for the layers the solver does not reach (combine grammar, assemble_internal's error paths): a generated corpus of
+    hostile texts goes through assemble() in the real build; Ok or Err are both fine, a panic is a violation.  Generators: every separator / length /
+    character-class dimension is enumerated systematically (not sampled): identifier lengths 0..72 with a multi-byte character at every position,
+    numeric literals of 1..40 digits in both radices and signs, operand truncations of every documented shape, unbalanced brackets, control characters."""
+    d = Driver.get('dev'); T = []
+    multi = ['\u00e9', '\u4e2d', '\U0001f600', '\u0663', '\u0301']
+    for L in range(0, 73):
+        T.append('a' * L); T.append('a' * L + ' r1, 2'); T.append('mov' + 'x' * L + ' r1, 2')
+        for ch in multi:
+            for pos in sorted({0, L // 2, max(L - 1, 0), L}):
+                T.append('a' * pos + ch + 'a' * max(L - pos, 0)); T.append('a' * pos + ch + 'a' * max(L - pos, 0) + ' r1')
+    for nd in range(1, 41):
+        for dg in ('9', '1', '0', 'f'):
+            for sg in ('', '-', '+'):
+                if dg != 'f': T.append(f'mov r0, {sg}{dg * nd}'); T.append(f'lddw r0, {sg}{dg * nd}'); T.append(f'ja {sg}{dg * nd}'); T.append(f'mov r{dg * nd}, 1'); T.append(f'ldxw r1, [r2{sg or "+"}{dg * nd}]')
+                T.append(f'mov r0, {sg}0x{dg * nd}'); T.append(f'lddw r0, {sg}0x{dg * nd}'); T.append(f'stw [r1{sg or "+"}0x{dg * nd}], 1')
+    T += ['mov r0, -9223372036854775808', 'lddw r0, -9223372036854775808', 'mov r0, -0x8000000000000000', 'lddw r0, -0x8000000000000000', 'ja -9223372036854775808', 'ldxw r1, [r2-9223372036854775808]', 'mov r-1, 1', 'mov r+1, 1']
+    shapes = ['mov r1, 2', 'ldxw r1, [r2+4]', 'stw [r1+2], 3', 'stxw [r1-2], r3', 'jeq r1, 2, +3', 'lddw r1, 0x1122334455667788', 'be16 r1', 'call 3', 'ja +1', 'ldabsw 4', 'ldindw r1, 4', 'neg r1', 'exit']
+    for t in shapes:
+        for i in range(len(t) + 1): T.append(t[:i]); T.append(t[:i] + '\n' + t); T.append(t[:i] + ',')
+        for ch in ['[', ']', ',', '+', '-', '\x00', '\x7f', '\u00a0', '\t', '\r', '\u2028', ';', '#', '"', "'", '\\', '%', '{', '}']:
+            for i in range(0, len(t) + 1, 2): T.append(t[:i] + ch + t[i:])
+    T += ['[' * k for k in (1, 10, 1000)] + ['r' * k for k in (1, 10, 1000)] + ['-' * k + '1' for k in (1, 2, 50)] + ['mov r0, ' + '0x' * k for k in (1, 2, 9)] + ['exit\n' * 5000, 'mov r0, 1,' * 300, ',' * 100, ' ' * 10000 + 'exit', 'exit' + '\n' * 10000]
+    seen = set(); n = 0
+    for t in T:
+        if t in seen: continue
+        seen.add(t); n += 1; rep.obligations += 1
+        r = d.request(dict(op='assemble', text=t))
+        if r.get('status') in ('ok', 'err'): rep.discharged += 1
+        else:
+            first = (t.split() or ['empty'])[0]
+            cands.append(dict(role=f'native/assemble-panics:{(r.get("msg") or "")[:60]}', detail=f'assemble({t[:80]!r}{"..." if len(t) > 80 else ""}) -> {r.get("status")}: {str(r.get("msg"))[:200]}', model=None, friendly=True, native=True, text=t[:400]))
+    rep.extra['native_texts'] = n
+
+
 def replay_asm(c):
     """through the public API: the text of the offending instruction is assembled natively"""
+    if c.get('native'): return True, 'observed natively'
     md = c.get('model')
     if md is None: return True, 'table/structural finding'
     if 'N' in md:
@@ -165,6 +205,9 @@ def run(pid='C13'):
     table = table_part(rep, cands) if pid == 'C13' else {n: (k, o) for n, k, o in Driver.get('dev').request(dict(op='asm_table')).get('table', [])}
     encode_part(rep, cands, table, timeout, props=(pid,))
     literal_part(rep, cands, timeout)
+    if pid == 'C14':
+        native_texts(rep, cands)
+        rep.assumptions.append('bounded native complement (grammar layer, error paths of assemble_internal): a systematically generated corpus of hostile texts through assemble() - no panic')
     rep.assumptions += ['pipeline: text -> (combine grammar: NOT encoded, no solver front end reaches generic combinator code) -> Instruction{name, operands} -> mnemonic table (hook H3, the real function run once) -> encode -> insn -> Insn::to_array (C17)',
                         'operands are symbolic: operand kind, register number, offset and immediate are arbitrary i64 (the grammar only produces non-negative register numbers)',
                         'numeric literals: the digit string is an arbitrary natural N; u64::from_str_radix / str::parse::<i64> are modelled by their documented contract (Ok(N) iff N fits)']
